@@ -109,4 +109,10 @@ CHECKS.update({
                       "and read from TSV documents produced by an independent randomised writer; TLC validates variable list, row sequence, term identity per cell up to one blank-node bijection (CSV judged by its lossy mapping), unbound != empty string, and boolean results.")},
 })
 ENGINES += [{"name": "terms", "path": "spec/TraceTerms.tla spec/TraceResults.tla harness/rvf/terms_replay.py harness/rvf/results_replay.py", "serves_properties": ["C07", "C16"], "kind_free_text": "term identity laws and result-table equality in TLA+; TLC validates rdflib observations"}]
+CHECKS["C09"] = {"engine": "xsd", "technique": "TLA+ transcription of the XSD lexical spaces at character level (XsdLexical.tla: validity, facets, canonical forms; laws checked by TLC over every string of length <= 5 of a 6-letter alphabet) + TLC validation of every observation recorded from rdflib (TraceXsd.tla), known findings as witness classes",
+    "note": _NOTE_COMMON + " Values are compared through canonical digit strings (integer family, decimal, boolean) and field records (date / time / dateTime); float / double values are judged for lexical validity, round trip and idempotence only (binary rounding is not modelled).",
+    "level": ("~20 000 lexical forms assembled from pieces for 24 datatypes (13 integer types at every facet boundary, boolean, decimal, double, float, date, time, dateTime, 3 duration types, hexBinary) incl. near-misses that Python converts and XSD forbids, "
+              "~1 500 Python values (ints, floats from random bit patterns, Decimals with exponents +-40, dates / times / datetimes with offsets, timedeltas, Durations) and eq() over all pairs of a 61-literal pool; TLC validates ill_typed against Valid(dt, lex), "
+              "the value against Canon / fields, validity and same value of the normalised form, idempotence, documented datatype and round trip of Python values, and eq against term equality, Python equality and XSD equality.")}
+ENGINES += [{"name": "xsd", "path": "spec/XsdLexical.tla spec/MCXsdLexical.tla spec/TraceXsd.tla harness/rvf/xsd_replay.py", "serves_properties": ["C09"], "kind_free_text": "XSD lexical spaces in TLA+ as the oracle for Literal construction"}]
 NOT_BUILT: dict = {}
